@@ -323,5 +323,25 @@ def X45():  # BREAKING: RTF kind table maps jpg to a type that does not exist
     s = open(DTP).read(); i = s.index("class RtfImage(ImageInterface):")
     open(DTP, "w").write(s[:i] + s[i:].replace('"jpg": "image/jpeg",', '"jpg": "image/jpg",', 1))
 
+def R42():  # units: page counter instead of enumerate; slide number through a local; metadata built in two steps
+    sub(DTP, """        for page_number, page in enumerate(self.pages, start=1):
+            yield PdfUnit(""", """        page_number = 0
+        for page in self.pages:
+            page_number += 1
+            yield PdfUnit(""")
+    sub(DTP, """            yield PptxUnit(
+                slide_number=slide.slide_number,""", """            number = slide.slide_number
+            yield PptxUnit(
+                slide_number=number,""")
+    sub(DTP, "        return PptxUnitMetadata(unit_number=self.slide_number)", "        md = PptxUnitMetadata(unit_number=0)\n        md.unit_number = self.slide_number\n        return md")
+def X46():  # BREAKING: pages are numbered from 0
+    sub(DTP, "for page_number, page in enumerate(self.pages, start=1):\n            yield PdfUnit(", "for page_number, page in enumerate(self.pages):\n            yield PdfUnit(")
+def X47():  # BREAKING: ODP units are numbered by position although the slide (and its pictures) carry the stored slide number
+    sub(DTP, """            yield OdpUnit(
+                slide_number=slide.slide_number,""", """            yield OdpUnit(
+                slide_number=len(parts),""")
+def X48():  # BREAKING: the sheet unit reports the 0-based index
+    sub(DTP, "        return XlsxUnitMetadata(\n            unit_number=self.sheet_index,", "        return XlsxUnitMetadata(\n            unit_number=self.sheet_index - 1,")
+
 globals()[sys.argv[1]]()
 print("applied", sys.argv[1])
